@@ -7,7 +7,8 @@
 //      allocator), copy/move assignment, swap; every block returned through an equal allocator;
 //  (3) the open finding F15 (assignment TO a moved-from wrapper whose allocator does not propagate on
 //      that assignment) in a forked child; reported with the tag known-F15 only for that pattern.
-// VF_PART=0..7 selects the wrapper kind (one per executable, for compile time); part 0 also runs (1)
+// VF_KINDS = bit mask of wrapper kinds (vector=1, set=2, multiset=4, map=8, multimap=16, unordered_set=32,
+// unordered_map=64, unordered_multimap=128) covered by this executable; the split only serves compile time
 #include "momo/stdish/vector.h"
 #include "momo/stdish/set.h"
 #include "momo/stdish/map.h"
@@ -24,8 +25,8 @@
 #include <unistd.h>
 #include <sys/wait.h>
 
-#ifndef VF_PART
-#define VF_PART 0
+#ifndef VF_KINDS
+#define VF_KINDS 255
 #endif
 
 using namespace c06;
@@ -61,10 +62,10 @@ static void runVector(Ctx& c, Rng& rng, unsigned runs, unsigned opsPerRun)
 				size_t i = (size_t)rng.below(n + 1), cnt = (size_t)rng.below(4);
 				size_t rm, rs;
 				switch (rng.below(4)) {
-				case 0: cnt = 1; rm = (size_t)(m.insert(m.begin() + (ptrdiff_t)i, v) - m.begin()); rs = (size_t)(st.insert(st.begin() + (ptrdiff_t)i, v) - st.begin()); break;
-				case 1: cnt = 1; rm = (size_t)(m.emplace(m.begin() + (ptrdiff_t)i, v) - m.begin()); rs = (size_t)(st.emplace(st.begin() + (ptrdiff_t)i, v) - st.begin()); break;
-				case 2: rm = (size_t)(m.insert(m.begin() + (ptrdiff_t)i, cnt, v) - m.begin()); rs = (size_t)(st.insert(st.begin() + (ptrdiff_t)i, cnt, v) - st.begin()); break;
-				default: { std::vector<int> src(cnt, v); rm = (size_t)(m.insert(m.begin() + (ptrdiff_t)i, src.begin(), src.end()) - m.begin()); rs = (size_t)(st.insert(st.begin() + (ptrdiff_t)i, src.begin(), src.end()) - st.begin()); break; }
+				case 0: { cnt = 1; auto im = m.insert(m.begin() + (ptrdiff_t)i, v); auto is = st.insert(st.begin() + (ptrdiff_t)i, v); rm = (size_t)(im - m.begin()); rs = (size_t)(is - st.begin()); break; }
+				case 1: { cnt = 1; auto im = m.emplace(m.begin() + (ptrdiff_t)i, v); auto is = st.emplace(st.begin() + (ptrdiff_t)i, v); rm = (size_t)(im - m.begin()); rs = (size_t)(is - st.begin()); break; }
+				case 2: { auto im = m.insert(m.begin() + (ptrdiff_t)i, cnt, v); auto is = st.insert(st.begin() + (ptrdiff_t)i, cnt, v); rm = (size_t)(im - m.begin()); rs = (size_t)(is - st.begin()); break; }
+				default: { std::vector<int> src(cnt, v); auto im = m.insert(m.begin() + (ptrdiff_t)i, src.begin(), src.end()); auto is = st.insert(st.begin() + (ptrdiff_t)i, src.begin(), src.end()); rm = (size_t)(im - m.begin()); rs = (size_t)(is - st.begin()); break; }
 				}
 				if (cnt == 0) c.stats.count("vec.insert_zero_length");
 				R.step(fmt("ins %s %zu %zu %d", cn, i, cnt, v), fmt("%zu", rm), fmt("%zu", rs));
@@ -73,8 +74,8 @@ static void runVector(Ctx& c, Rng& rng, unsigned runs, unsigned opsPerRun)
 				size_t i = (size_t)rng.below(n + 1), j = i + (size_t)rng.below(std::min<size_t>(n - i, 4) + 1);
 				if (rng.chance(1, 3) && i < n) j = i + 1;
 				size_t rm, rs;
-				if (j == i + 1 && rng.chance(1, 2)) { rm = (size_t)(m.erase(m.begin() + (ptrdiff_t)i) - m.begin()); rs = (size_t)(st.erase(st.begin() + (ptrdiff_t)i) - st.begin()); }
-				else { rm = (size_t)(m.erase(m.begin() + (ptrdiff_t)i, m.begin() + (ptrdiff_t)j) - m.begin()); rs = (size_t)(st.erase(st.begin() + (ptrdiff_t)i, st.begin() + (ptrdiff_t)j) - st.begin()); }
+				if (j == i + 1 && rng.chance(1, 2)) { auto im = m.erase(m.begin() + (ptrdiff_t)i); auto is = st.erase(st.begin() + (ptrdiff_t)i); rm = (size_t)(im - m.begin()); rs = (size_t)(is - st.begin()); }
+				else { auto im = m.erase(m.begin() + (ptrdiff_t)i, m.begin() + (ptrdiff_t)j); auto is = st.erase(st.begin() + (ptrdiff_t)i, st.begin() + (ptrdiff_t)j); rm = (size_t)(im - m.begin()); rs = (size_t)(is - st.begin()); }
 				if (i == j) c.stats.count("vec.erase_zero_length");
 				R.step(fmt("ers %s %zu %zu", cn, i, j), fmt("%zu", rm), fmt("%zu", rs));
 			}
@@ -252,26 +253,33 @@ static void f15Probe(Ctx& c)
 int main(int argc, char** argv)
 {
 	Ctx c = parseArgs(argc, argv);
-	Rng rng(c.seed * 0x1000 + 0xA06 + VF_PART);
+	Rng rng(c.seed * 0x1000 + 0xA06 + VF_KINDS * 0x10000);
 	unsigned rounds = c.thorough ? 24 : 5;
 	hc().fam = (unsigned)rng.below(6);
-	// one wrapper kind per executable (compile time); VF_PART = 0..7
-#if VF_PART == 0
+	// VF_KINDS: bit mask of the wrapper kinds this executable covers (split for compile time)
+#if VF_KINDS & 1
 	runVector(c, rng, c.thorough ? 60 : 12, c.thorough ? 700 : 400);
 	allocAll<VEC>(c, rng, rounds);
-#elif VF_PART == 1
+#endif
+#if VF_KINDS & 2
 	allocAll<SET>(c, rng, rounds); f15Probe<SET>(c);
-#elif VF_PART == 2
+#endif
+#if VF_KINDS & 4
 	allocAll<MSET>(c, rng, rounds); f15Probe<MSET>(c);
-#elif VF_PART == 3
+#endif
+#if VF_KINDS & 8
 	allocAll<MAP>(c, rng, rounds); f15Probe<MAP>(c);
-#elif VF_PART == 4
+#endif
+#if VF_KINDS & 16
 	allocAll<MMAP>(c, rng, rounds); f15Probe<MMAP>(c);
-#elif VF_PART == 5
+#endif
+#if VF_KINDS & 32
 	allocAll<USET>(c, rng, rounds); f15Probe<USET>(c);
-#elif VF_PART == 6
+#endif
+#if VF_KINDS & 64
 	allocAll<UMAP>(c, rng, rounds); f15Probe<UMAP>(c);
-#else
+#endif
+#if VF_KINDS & 128
 	allocAll<UMMAP>(c, rng, rounds); f15Probe<UMMAP>(c);
 #endif
 	c.stats.count("alloc.ledger_allocations", ledger().allocs);
